@@ -261,3 +261,74 @@ class _fill_u:
                                        s1.min == fmin(s0.min, v), s1.max == fmax(s0.max, v))),
                    Implies(Not(inside), same(s0, s1)),
                    str(attr(a.self, "_dtype")) == want, str(dtype_of(Fq(a.self))) == want, str(dtype_of(Eq(a.self))) == want)
+
+
+@contract(H1K + ".__init__", props=["C18", "C13", "C01"], name=H1K + ".__init__[any bin count]")
+class _init_u:
+    def configs():
+        return [{"case": c} for c in ("ok", "no_errors2", "wrong_shape", "negative", "negative_errors2", "int_input")]
+
+    def inputs(b):
+        n = nbins(b)
+        c = b.cfg.case
+        binning = static_binning_t(b, "B", n)
+        dt = "int64" if c == "int_input" else "float64"
+        freq = b.tarray("f", (n + 1,) if c == "wrong_shape" else (n,), dt)
+        err2 = b.tarray("e", (n,), dt)
+        if c != "negative":
+            b.assume(forall(0, n + 1 if c == "wrong_shape" else n, lambda i: freq[i] >= 0))
+        else:
+            b.assume(And(n >= 1, freq[0] < 0))
+        if c != "negative_errors2":
+            b.assume(forall(0, n, lambda i: err2[i] >= 0))
+        else:
+            b.assume(And(n >= 1, err2[0] < 0))
+        kw = dict(self=b.obj(H1), binning=binning, frequencies=freq)
+        if c != "no_errors2":
+            kw["errors2"] = err2
+        return kw
+
+    @ensures("stores_exactly_what_was_given_well_formed")
+    def _(a, old, result):
+        n = shape_of(attr(old.binning, "_bins"))[0]
+        f, e = Fq(a.self), Eq(a.self)
+        f0 = old.frequencies
+        cs = [a._cfg_case in ("ok", "no_errors2", "int_input"), count_of(a.self) == n, shape_of(e)[0] == n,
+              forall(0, n, lambda i: And(f[i] == f0[i], e[i] >= 0, f[i] >= 0)),
+              attr(a.self, "_dtype") == dtype_of(f0), dtype_of(f) == dtype_of(f0), dtype_of(e) == dtype_of(f0),
+              same(elems(attr(a.self, "_missed")), [0, 0, 0]), a.self.keep_missed is True]
+        if hasattr(old, "errors2"):
+            cs.append(forall(0, n, lambda i: e[i] == old.errors2[i]))
+        else:
+            cs.append(forall(0, n, lambda i: e[i] == f0[i]))      # default: errors2 = |frequencies|
+        return And(*cs)
+
+    @raises(ValueError, "wrong_shape_or_negative_values_refused")
+    def _(o):
+        return o._cfg_case in ("wrong_shape", "negative", "negative_errors2")
+
+
+@contract(H1K + ".__getitem__", props=["C11"], name=H1K + ".__getitem__[int, any bin count]")
+class _getitem_int_u:
+    def inputs(b):
+        n = nbins(b)
+        return dict(self=hist1d_t(b, "h", n, "int64"), index=b.int("i"))
+
+    def invoke(I, fn, a, cfg):
+        if I is not None:
+            return I.call(fn, [a.self, a.index], {})
+        return fn(a.self, a.index)
+
+    @ensures("edges_and_content_of_that_bin_negative_indices_from_the_end")
+    def _(a, old, result):
+        n, i = count_of(old.self), old.index
+        bins = attr(attr(old.self, "_binnings")[0], "_bins")
+        edges, content = result
+        k = If(i < 0, i + n, i)
+        return And(-n <= i, i < n, edges[0] == bins[k, 0], edges[1] == bins[k, 1], content == Fq(old.self)[k],
+                   same(Fq(old.self), Fq(a.self)))
+
+    @raises(IndexError, "out_of_range_refused")
+    def _(o):
+        n = count_of(o.self)
+        return Or(o.index >= n, o.index < -n)
